@@ -5,7 +5,7 @@ import os
 from ..lib import cbuild, tlc
 from ..lib.common import workdir, rmworkdir, seed, log
 from ..lib.report import Report
-from ..drivers import simdrv
+from ..drivers import simdrv, tabledrv
 
 PID = 'C05'
 
@@ -30,6 +30,63 @@ def judge_steps(rep, cases, wd, mode='c05', batch=40000):
     return allfails
 
 
+def table_dumps(names=None):
+    """{name: [(impl label, data)]} with identical dumps merged (labels joined)."""
+    cbuild.build()
+    names = names or sorted(tabledrv.EXEC)
+    tasks = [(im, n, 1, 0) for n in names for im in ('py', 'c', 'pycm', 'ccm')]
+    with mp.get_context('fork').Pool(16) as pool:
+        res = pool.map(tabledrv.exec_table, tasks, chunksize=1)
+    cbuild.preload()
+    st = tabledrv.simtables_dump()
+    by = {}
+    for im, n, data in res:
+        by.setdefault(n, []).append((im, data))
+    for n, data in st.items():
+        by.setdefault(n, []).append(('simtables', data))
+    merged = {}
+    for n, lst in by.items():
+        groups = []
+        for im, data in lst:
+            for g in groups:
+                if g[1] == data:
+                    g[0].append(im)
+                    break
+            else:
+                groups.append(([im], data))
+        merged[n] = [('+'.join(g[0]), g[1]) for g in groups]
+    return merged
+
+
+def judge_tables(rep, merged, wd):
+    tables = []
+    for n in sorted(merged):
+        for label, data in merged[n]:
+            tables.append({'name': n, 'impls': label, 'n': len(data), 'data': data})
+    path = os.path.join(wd, 'tables.json')
+    import json
+    with open(path, 'w') as f:
+        json.dump(tables, f, separators=(',', ':'))
+    r = tlc.run(os.path.join(tlc.SPEC, 'z80'), 'TableCases', 'TableCases.cfg', env={'TABLES': path}, tag='TableCases',
+                timeout=3000, heap='16g')
+    tlc.check_machinery(r, 'TableCases')
+    total = sum(t['n'] for t in tables)
+    if r.distinct != 2 * total:
+        raise tlc.MachineryError('TableCases: expected %d states, got %d\n%s' % (2 * total, r.distinct, r.out[-2000:]))
+    rep.add_tlc(r, 'TableCases', traces=len(tables))
+    nimpl = sum(len(lbl.split('+')) for v in merged.values() for lbl, _ in v)
+    rep.extra['table_entries_enumerated_by_tlc'] = total
+    rep.extra['table_dumps'] = nimpl
+    rep.extra['table_dumps_distinct'] = len(tables)
+    for code, name in r.fails:
+        k, i = code // 1000000 - 1, code % 1000000
+        t = tables[k]
+        rep.violation('table:%s:%s:%d' % (t['name'], t['impls'], i),
+                      'table %s of %s: entry %d = %d differs from the specification' % (t['name'], t['impls'], i, t['data'][i]),
+                      {'table': t['name'], 'impls': t['impls'], 'index': i, 'value': t['data'][i]})
+    return total
+
+
 def run(tier):
     rep = Report(PID, tier)
     wd = workdir('c05')
@@ -48,6 +105,8 @@ def run(tier):
         impl, _, cl = clause.partition(':')
         rep.violation('step:%s:%s:%s' % (c['key'].split('/')[0], impl, cl),
                       'single step %s on %s: clause %s fails' % (c['key'], impl, cl), c)
+    total = judge_tables(rep, table_dumps(), wd)
+    rep.sample({'table': 'ADC', 'index_layout': '(c,a,v)', 'entries': 131072})
     rep.rule = ('one case = one opcode slot x boundary-biased random register/operand/placement values, executed on '
                 'py/c/pycm/ccm simulators and judged by Z80!Step in TLC; distinct_nontrivial = distinct opcode slots covered')
     rep.assumptions = ['Z80.tla transcribes the Zilog manual + Undocumented Z80 Documented; flag bits listed in Eff.mask only']
